@@ -270,7 +270,9 @@ func (s *Server) Run(addr string, opt ...Option) error {
 				// handling a single conn causes a panic
 				defer func() {
 					if r := recover(); r != nil {
-						s.logger.Error("Caught panic while serving request", "op", op, "conn", localConnID, "conn/req", fmt.Sprintf("%+v: %+v", c, r))
+						// note: formatting the conn itself would read its internals while
+						// other goroutines may still be using it
+						s.logger.Error("Caught panic while serving request", "op", op, "conn", localConnID, "conn/req", fmt.Sprintf("%s: %+v", c.RemoteAddr(), r))
 					}
 				}()
 			}
